@@ -999,6 +999,20 @@ def literal_value(node: ast.AST) -> bool:
         raise ValueError(f"Cannot find a deterministic value: {error!r}") from error
 
 
+_SET_ORDER_FREE_FUNCTIONS = frozenset(
+    ("all", "any", "bool", "frozenset", "isinstance", "len", "max", "min", "set", "sorted", "sum")
+)
+
+
+def _require_no_set_order(name: str, values: Sequence) -> None:
+    """The order in which a set is iterated differs between runs, so only what does not depend on
+    it has a known value."""
+    if name not in _SET_ORDER_FREE_FUNCTIONS and any(
+        isinstance(value, (set, frozenset)) for value in values
+    ):
+        raise ValueError("Cannot find a deterministic value for something that iterates a set")
+
+
 def _literal_value(node: ast.AST) -> bool:
     if has_side_effect(node, safe_callable_whitelist=constants.LITERAL_VALUE_FUNCTIONS):
         raise ValueError("Cannot find a deterministic value for a node with a side effect")
@@ -1050,6 +1064,7 @@ def _literal_value(node: ast.AST) -> bool:
     if match_template(node, ast.Call(func=ast.Attribute(value=ast.Constant), keywords=[])):
         node_value = literal_value(node.func.value)
         args = [literal_value(arg) for arg in node.args]
+        _require_no_set_order(node.func.attr, args)
         return getattr(node_value, node.func.attr)(*args)
 
     if isinstance(node, ast.Call):
@@ -1058,6 +1073,7 @@ def _literal_value(node: ast.AST) -> bool:
                 raise ValueError("Cannot find a deterministic value for a call with **kwargs")
             args = [literal_value(arg) for arg in node.args]
             kwargs = {keyword.arg: literal_value(keyword.value) for keyword in node.keywords}
+            _require_no_set_order(node.func.id, [*args, *kwargs.values()])
             return getattr(builtins, node.func.id)(*args, **kwargs)
 
     return ast.literal_eval(node)
